@@ -81,6 +81,13 @@ def lowerChar (c : Nat) : Nat := if 65 ≤ c ∧ c ≤ 90 then c + 32 else c
 /-- `str.lower()` restricted to what validated protocols can contain (ASCII) -/
 def lower (s : Str) : Str := s.map lowerChar
 
+/-- the full `str.lower()` of the interpreter (Unicode special casing: `'İ'.lower()` has two
+code points, U+212A KELVIN SIGN lowers to `k`, final sigma …).  `Service.from_string` lower-cases
+the protocol text **before** validating it when it asks `default_func` for defaults, so that call
+sees arbitrary strings; the mapping is a parameter of the model (no theorem needs a law about it;
+the driver is given its graph on the strings concerned, computed by the real `str.lower`). -/
+abbrev PyLower := Str → Str
+
 /-- `s.find(chr(c))` -/
 def findIdx (c : Nat) : Str → Option Nat
   | [] => none
@@ -383,24 +390,25 @@ def pickProtocol {α : Type} (g : SvcDefaults α) (s : Str) : Except PyExc (PyVa
     else .error .valueError
 
 /-- the second half: `partial(default_func, protocol.lower())`, parse the address, construct.
-`protocol.lower()` on a (truthy) non-string raises AttributeError. -/
-def withProtocol {α : Type} (L : IPLib α) (cfg : Cfg) (g : SvcDefaults α) (protocol : PyVal α)
-    (address : Str) : Except PyExc (Service α) :=
+`protocol.lower()` on a (truthy) non-string raises AttributeError: the `default_func` contract is
+"`default_func(None, ServicePart.PROTOCOL)` returns a `str` or something falsy". -/
+def withProtocol {α : Type} (L : IPLib α) (cfg : Cfg) (low : PyLower) (g : SvcDefaults α)
+    (protocol : PyVal α) (address : Str) : Except PyExc (Service α) :=
   match protocol with
   | .str p =>
-    match NetAddr.fromStringD L cfg (some (g (some (lower p)) .host, g (some (lower p)) .port))
+    match NetAddr.fromStringD L cfg (some (g (some (low p)) .host, g (some (low p)) .port))
         (.str address) with
     | .error e => .error e
     | .ok a => mkService L cfg (.str p) (.obj a)
   | _ => .error .attributeError
 
 /-- `Service.from_string(string, default_func=g)` -/
-def Service.fromStringD {α : Type} (L : IPLib α) (cfg : Cfg) (g : SvcDefaults α) :
+def Service.fromStringD {α : Type} (L : IPLib α) (cfg : Cfg) (low : PyLower) (g : SvcDefaults α) :
     PyVal α → Except PyExc (Service α)
   | .str s =>
     match pickProtocol g s with
     | .error e => .error e
-    | .ok (protocol, address) => withProtocol L cfg g protocol address
+    | .ok (protocol, address) => withProtocol L cfg low g protocol address
   | _ => .error .typeError
 
 /-- `Service.__str__` -/
